@@ -253,3 +253,62 @@ impl RecvHandler {
             .unwrap_or_else(|e| warn!(error = %e,"Could not send packet to handler"));
     }
 }
+
+#[cfg(feature = "verif-hooks")]
+impl RecvHandler {
+    /// Verification hook: like `spawn`, but datagrams are fed from a channel instead of being
+    /// read from the UDP socket. Every datagram goes through the real `handle_inbound` (exemption
+    /// lookup, filter, decoding). Datagrams are truncated to the receive buffer size, as
+    /// `recv_from` would do.
+    pub(crate) fn spawn_virtual(
+        config: RecvHandlerConfig,
+        mut inbound: mpsc::UnboundedReceiver<(SocketAddr, Vec<u8>)>,
+    ) -> (mpsc::Receiver<RecvPacket>, oneshot::Sender<()>) {
+        let (exit_sender, exit) = oneshot::channel();
+        let RecvHandlerConfig {
+            filter_config,
+            ban_duration,
+            executor,
+            recv,
+            second_recv,
+            local_node_id,
+            protocol_identity,
+            expected_responses,
+        } = config;
+
+        let filter_enabled = filter_config.enabled;
+        let (handler, handler_recv) = mpsc::channel(30);
+
+        let mut recv_handler = RecvHandler {
+            recv,
+            second_recv,
+            expected_responses,
+            filter: Filter::new(filter_config, ban_duration),
+            node_id: local_node_id,
+            protocol_identity,
+            handler,
+            exit,
+        };
+
+        executor.spawn(Box::pin(async move {
+            let mut interval = tokio::time::interval(Duration::from_secs(30));
+            let mut buffer = [0; MAX_PACKET_SIZE];
+            loop {
+                tokio::select! {
+                    Some((src, data)) = inbound.recv() => {
+                        let length = data.len().min(MAX_PACKET_SIZE);
+                        buffer[..length].copy_from_slice(&data[..length]);
+                        recv_handler.handle_inbound(src, length, &buffer).await;
+                    }
+                    _ = interval.tick(), if filter_enabled => {
+                        recv_handler.filter.prune_limiter();
+                    },
+                    _ = &mut recv_handler.exit => {
+                        return;
+                    }
+                }
+            }
+        }));
+        (handler_recv, exit_sender)
+    }
+}
